@@ -1,5 +1,10 @@
-//! C14 — connectivity. Ops: `init n`, `mkt e`, `acc e`, `mktre e`, `accre e` driven through the real
-//! `Engine::process`; observations: global health, per-exchange links, on-disconnect log.
+//! C14 — connectivity. Ops: `init n [on]`, `mkt e [kind]`, `acc e [kind]`, `mktre e`, `accre e` driven
+//! through the real `Engine::process`; observations: global health, per-exchange links, on-disconnect log.
+//! `init n on` builds the engine with trading ENABLED (the scripted strategy then runs its - empty - algo
+//! step after every market / account item); `n` may be up to 10 (labels 5..9 are further `ExchangeId`s).
+//! `mkt e <trade|l1|book|candle|liq>` / `acc e <trade|bal|snap|ord|canc>` choose the kind of the item: every
+//! `DataKind` / `AccountEventKind` variant is an item of its link. Without a kind token the item is a public
+//! trade / alternates trade and balance snapshot by op position (the original protocol).
 use barter::{
     EngineEvent,
     engine::{
@@ -9,23 +14,66 @@ use barter::{
     execution::AccountStreamEvent,
 };
 use barter_data::{
+    books::{Level, OrderBook},
     event::{DataKind, MarketEvent},
     streams::consumer::MarketStreamEvent,
-    subscription::trade::PublicTrade,
+    subscription::{
+        book::{OrderBookEvent, OrderBookL1},
+        candle::Candle,
+        liquidation::Liquidation,
+        trade::PublicTrade,
+    },
 };
 use barter_execution::{
-    AccountEvent, AccountEventKind,
+    AccountEvent, AccountEventKind, AccountSnapshot,
     balance::{AssetBalance, Balance},
+    order::{
+        Order, OrderKey, OrderKind, TimeInForce,
+        id::{ClientOrderId, OrderId, StrategyId},
+        request::OrderResponseCancel,
+        state::{Cancelled, Open, OrderState},
+    },
 };
 use barter_instrument::{
-    Side,
+    Side, Underlying,
     asset::AssetIndex,
-    exchange::ExchangeIndex,
-    instrument::InstrumentIndex,
+    exchange::{ExchangeId, ExchangeIndex},
+    index::IndexedInstruments,
+    instrument::{Instrument, InstrumentIndex},
 };
 use barter_integration::snapshot::Snapshot;
 use rust_decimal::Decimal;
 use vh::{engine_util::*, *};
+
+/// Exchange labels 0..9: the first five are the shared `EXCHANGES`; the rest are chosen so that the index
+/// order (sorted `ExchangeId`) interleaves with the label order.
+const EXCH: [ExchangeId; 10] = [
+    ExchangeId::BinanceSpot,
+    ExchangeId::Coinbase,
+    ExchangeId::Kraken,
+    ExchangeId::Okx,
+    ExchangeId::Bitfinex,
+    ExchangeId::Gemini,
+    ExchangeId::BinanceFuturesUsd,
+    ExchangeId::Poloniex,
+    ExchangeId::Bitmex,
+    ExchangeId::GateioSpot,
+];
+
+/// Same shape as `engine_util::build_instruments`, over `EXCH`.
+fn build_instruments_wide(defs: &[(usize, &str, &str)]) -> IndexedInstruments {
+    let mut builder = IndexedInstruments::builder();
+    for (ex, base, quote) in defs {
+        builder = builder.add_instrument(Instrument::spot(
+            EXCH[*ex],
+            format!("{base}_{quote}_x{ex}"),
+            format!("{}{}", base.to_uppercase(), quote.to_uppercase()),
+            Underlying::new(*base, *quote),
+            None,
+        ));
+    }
+    builder.build()
+}
 
 fn h(x: Health) -> &'static str {
     match x {
@@ -51,7 +99,7 @@ fn observe(engine: &TestEngine, lines: &mut Vec<String>) {
             .strategy
             .disconnects
             .iter()
-            .map(|id| EXCHANGES.iter().position(|e| e == id).unwrap().to_string())
+            .map(|id| EXCH.iter().position(|e| e == id).unwrap().to_string())
             .collect::<Vec<_>>()
             .join(" ")
     ));
@@ -66,6 +114,18 @@ fn run() {
             lines.push("@".into());
             let arg: usize = op[1].parse().unwrap();
             if op[0] == "init" {
+                let trading = match op.get(2).map(|s| s.as_str()) {
+                    None => TradingState::Disabled,
+                    Some("on") if op.len() == 3 => TradingState::Enabled,
+                    _ => {
+                        lines.push("bad-op".into());
+                        continue;
+                    }
+                };
+                if arg > EXCH.len() {
+                    lines.push("bad-op".into());
+                    continue;
+                }
                 n = arg;
                 // exchange label e carries (e % 3) + 1 instruments with different bases, so that instrument
                 // indices, asset indices, exchange indices and labels never coincide by accident (with 5
@@ -74,11 +134,21 @@ fn run() {
                 let defs: Vec<(usize, &str, &str)> = (0..n)
                     .flat_map(|e| (0..=(e % 3)).map(move |j| (e, BASES[j], "usdt")))
                     .collect();
-                let instruments = build_instruments(&defs);
-                built = Some(build_engine(&instruments, &[], TradingState::Disabled));
+                let instruments = build_instruments_wide(&defs);
+                built = Some(build_engine(&instruments, &[], trading));
                 observe(&built.as_ref().unwrap().engine, lines);
                 continue;
             }
+            // kind token: only on items, only from the item's own alphabet
+            let kind: Option<&str> = match (op[0].as_str(), op.get(2).map(|s| s.as_str()), op.len()) {
+                (_, None, 2) => None,
+                ("mkt", Some(k @ ("trade" | "l1" | "book" | "candle" | "liq")), 3) => Some(k),
+                ("acc", Some(k @ ("trade" | "bal" | "snap" | "ord" | "canc")), 3) => Some(k),
+                _ => {
+                    lines.push("bad-op".into());
+                    continue;
+                }
+            };
             let engine = &mut built.as_mut().expect("init first").engine;
             if arg >= n {
                 // model and code both reject: the code panics on an unknown exchange
@@ -86,57 +156,129 @@ fn run() {
                 continue;
             }
             let time = time_ms(k as i64);
-            let event: Event = match op[0].as_str() {
-                "mkt" => EngineEvent::Market(MarketStreamEvent::Item(MarketEvent {
+            let order_key = |engine: &TestEngine| OrderKey {
+                exchange: ExchangeIndex(exchange_index_of(engine, arg)),
+                instrument: InstrumentIndex(instrument_of(engine, arg)),
+                strategy: StrategyId::new("verif"),
+                cid: ClientOrderId::new(format!("c{k}")),
+            };
+            let event: Event = match (op[0].as_str(), kind) {
+                ("mkt", mk) => EngineEvent::Market(MarketStreamEvent::Item(MarketEvent {
                     time_exchange: time,
                     time_received: time,
-                    exchange: EXCHANGES[arg],
+                    exchange: EXCH[arg],
                     // exchanges are indexed in sorted order of ExchangeId: look the instrument up
                     instrument: InstrumentIndex(instrument_of(engine, arg)),
-                    kind: DataKind::Trade(PublicTrade {
-                        id: k.to_string(),
-                        price: 100.0,
-                        amount: 1.0,
-                        side: Side::Buy,
-                    }),
+                    kind: match mk {
+                        None | Some("trade") => DataKind::Trade(PublicTrade {
+                            id: k.to_string(),
+                            price: 100.0,
+                            amount: 1.0,
+                            side: Side::Buy,
+                        }),
+                        Some("l1") => DataKind::OrderBookL1(OrderBookL1 {
+                            last_update_time: time,
+                            best_bid: Some(Level::new(Decimal::from(99), Decimal::ONE)),
+                            best_ask: Some(Level::new(Decimal::from(101), Decimal::ONE)),
+                        }),
+                        // a book event that carries NO price information at all (empty update)
+                        Some("book") if k % 2 == 0 => DataKind::OrderBook(OrderBookEvent::Update(OrderBook::new(
+                            k as u64,
+                            None,
+                            Vec::<Level>::new(),
+                            Vec::<Level>::new(),
+                        ))),
+                        Some("book") => DataKind::OrderBook(OrderBookEvent::Snapshot(OrderBook::new(
+                            k as u64,
+                            Some(time),
+                            vec![Level::new(Decimal::from(99), Decimal::ONE)],
+                            vec![Level::new(Decimal::from(101), Decimal::ONE)],
+                        ))),
+                        Some("candle") => DataKind::Candle(Candle {
+                            close_time: time,
+                            open: 1.0,
+                            high: 2.0,
+                            low: 1.0,
+                            close: 2.0,
+                            volume: 3.0,
+                            trade_count: 2,
+                        }),
+                        _ => DataKind::Liquidation(Liquidation {
+                            side: Side::Sell,
+                            price: 100.0,
+                            quantity: 1.0,
+                            time,
+                        }),
+                    },
                 })),
                 // every kind of account item heals the account link: alternate balance snapshots and trades
-                "acc" if k % 2 == 1 => {
-                    let ex = exchange_index_of(engine, arg);
-                    EngineEvent::Account(AccountStreamEvent::Item(AccountEvent {
-                        exchange: ExchangeIndex(ex),
-                        kind: AccountEventKind::Trade(barter_execution::trade::Trade {
-                            id: barter_execution::trade::TradeId::new(format!("t{k}")),
-                            order_id: barter_execution::order::id::OrderId::new(format!("o{k}")),
-                            instrument: InstrumentIndex(instrument_of(engine, arg)),
-                            strategy: barter_execution::order::id::StrategyId::new("verif"),
-                            time_exchange: time,
-                            side: Side::Buy,
-                            price: Decimal::ONE_HUNDRED,
-                            quantity: Decimal::ONE,
-                            fees: barter_execution::trade::AssetFees::quote_fees(Decimal::ZERO),
-                        }),
-                    }))
-                }
-                "acc" => {
-                    let ex = exchange_index_of(engine, arg);
-                    EngineEvent::Account(AccountStreamEvent::Item(AccountEvent {
-                        exchange: ExchangeIndex(ex),
-                        kind: AccountEventKind::BalanceSnapshot(Snapshot(AssetBalance {
-                            asset: AssetIndex(asset_of(engine, ex)),
-                            balance: Balance::new(Decimal::ONE, Decimal::ONE),
-                            time_exchange: time,
-                        })),
-                    }))
-                }
-                "mktre" => EngineEvent::Market(MarketStreamEvent::Reconnecting(EXCHANGES[arg])),
-                "accre" => EngineEvent::Account(AccountStreamEvent::Reconnecting(EXCHANGES[arg])),
-                other => panic!("bad op {other}"),
+                ("acc", None) if k % 2 == 1 => account_item(engine, arg, "trade", k, time, order_key(engine)),
+                ("acc", None) => account_item(engine, arg, "bal", k, time, order_key(engine)),
+                ("acc", Some(ak)) => account_item(engine, arg, ak, k, time, order_key(engine)),
+                ("mktre", _) => EngineEvent::Market(MarketStreamEvent::Reconnecting(EXCH[arg])),
+                ("accre", _) => EngineEvent::Account(AccountStreamEvent::Reconnecting(EXCH[arg])),
+                (other, _) => panic!("bad op {other}"),
             };
             let _audit = engine.process(event);
             observe_labelled(engine, n, lines);
         }
     });
+}
+
+/// An account item of the given kind for exchange label `e` (every `AccountEventKind` variant).
+fn account_item(
+    engine: &TestEngine,
+    e: usize,
+    kind: &str,
+    k: usize,
+    time: chrono::DateTime<chrono::Utc>,
+    key: OrderKey<ExchangeIndex, InstrumentIndex>,
+) -> Event {
+    let ex = exchange_index_of(engine, e);
+    let balance = AssetBalance {
+        asset: AssetIndex(asset_of(engine, ex)),
+        balance: Balance::new(Decimal::ONE, Decimal::ONE),
+        time_exchange: time,
+    };
+    let kind = match kind {
+        "trade" => AccountEventKind::Trade(barter_execution::trade::Trade {
+            id: barter_execution::trade::TradeId::new(format!("t{k}")),
+            order_id: OrderId::new(format!("o{k}")),
+            instrument: InstrumentIndex(instrument_of(engine, e)),
+            strategy: StrategyId::new("verif"),
+            time_exchange: time,
+            side: Side::Buy,
+            price: Decimal::ONE_HUNDRED,
+            quantity: Decimal::ONE,
+            fees: barter_execution::trade::AssetFees::quote_fees(Decimal::ZERO),
+        }),
+        "bal" => AccountEventKind::BalanceSnapshot(Snapshot(balance)),
+        // full account snapshot: empty on even op positions (it then touches no asset / instrument state
+        // at all), one balance on odd ones
+        "snap" => AccountEventKind::Snapshot(AccountSnapshot {
+            exchange: ExchangeIndex(ex),
+            balances: if k % 2 == 0 { vec![] } else { vec![balance] },
+            instruments: vec![],
+        }),
+        "ord" => AccountEventKind::OrderSnapshot(Snapshot(Order {
+            key,
+            side: Side::Buy,
+            price: Decimal::ONE_HUNDRED,
+            quantity: Decimal::ONE,
+            kind: OrderKind::Limit,
+            time_in_force: TimeInForce::GoodUntilCancelled { post_only: false },
+            state: OrderState::active(Open {
+                id: OrderId::new(format!("o{k}")),
+                time_exchange: time,
+                filled_quantity: Decimal::ZERO,
+            }),
+        })),
+        _ => AccountEventKind::OrderCancelled(OrderResponseCancel {
+            key,
+            state: Ok(Cancelled { id: OrderId::new(format!("o{k}")), time_exchange: time }),
+        }),
+    };
+    EngineEvent::Account(AccountStreamEvent::Item(AccountEvent { exchange: ExchangeIndex(ex), kind }))
 }
 
 /// position of exchange label `e` in the engine's connectivity table (= its ExchangeIndex)
@@ -145,7 +287,7 @@ fn exchange_index_of(engine: &TestEngine, e: usize) -> usize {
         .state
         .connectivity
         .exchanges
-        .get_index_of(&EXCHANGES[e])
+        .get_index_of(&EXCH[e])
         .unwrap()
 }
 
@@ -179,7 +321,7 @@ fn observe_labelled(engine: &TestEngine, n: usize, lines: &mut Vec<String>) {
         "links {}",
         (0..n)
             .map(|e| {
-                let s = c.connectivity(&EXCHANGES[e]);
+                let s = c.connectivity(&EXCH[e]);
                 format!("{}{}", h(s.market_data), h(s.account))
             })
             .collect::<Vec<_>>()
@@ -191,7 +333,7 @@ fn observe_labelled(engine: &TestEngine, n: usize, lines: &mut Vec<String>) {
             .strategy
             .disconnects
             .iter()
-            .map(|id| EXCHANGES.iter().position(|e| e == id).unwrap().to_string())
+            .map(|id| EXCH.iter().position(|e| e == id).unwrap().to_string())
             .collect::<Vec<_>>()
             .join(" ")
     ));
@@ -236,6 +378,67 @@ fn generate(seed: u64, n_cases: usize, tier: &str) {
                 *rng.pick(&["mkt", "acc"])
             };
             out.line(format!("{k} {e}"));
+        }
+    }
+    // Separately seeded family `d…` (input-domain audit): up to 10 exchanges, trading enabled or disabled,
+    // every DataKind / AccountEventKind variant as the item, and a warm-up that heals every link (so that the
+    // all-healthy state - the early-return branch - is reached also with many exchanges).
+    let mut rng = Rng::new(seed ^ 0xD0D0_14);
+    let mkinds = ["trade", "l1", "book", "candle", "liq"];
+    let akinds = ["trade", "bal", "snap", "ord", "canc"];
+    for _ in 0..(n_cases / 3).max(12) {
+        id += 1;
+        out.case(format!("d{id}"));
+        let n = if rng.chance(50) { rng.range(6, 10) } else { rng.range(1, 5) } as usize;
+        out.line(format!("init {n}{}", if rng.chance(50) { " on" } else { "" }));
+        let item = |rng: &mut Rng, market: bool, e: usize| -> String {
+            if market {
+                format!("mkt {e} {}", rng.pick(&mkinds))
+            } else {
+                format!("acc {e} {}", rng.pick(&akinds))
+            }
+        };
+        // one kind for the whole case in a third of the cases: a kind that does not heal shows as a link
+        // that never becomes healthy
+        let mono: Option<(usize, usize)> =
+            if rng.chance(33) { Some((rng.below(5) as usize, rng.below(5) as usize)) } else { None };
+        if rng.chance(60) {
+            // warm-up: every link once, shuffled
+            let mut links: Vec<(bool, usize)> = (0..n).flat_map(|e| [(true, e), (false, e)]).collect();
+            for i in (1..links.len()).rev() {
+                links.swap(i, rng.below(i as u64 + 1) as usize);
+            }
+            for (m, e) in links {
+                match mono {
+                    Some((mk, ak)) => out.line(if m {
+                        format!("mkt {e} {}", mkinds[mk])
+                    } else {
+                        format!("acc {e} {}", akinds[ak])
+                    }),
+                    None => out.line(item(&mut rng, m, e)),
+                }
+            }
+        }
+        let len = rng.range(0, if tier == "thorough" { 60 } else { 30 });
+        let notice_pct = *rng.pick(&[5u64, 15, 40]);
+        // in a fifth of the cases all traffic goes to two exchanges (a notice is usually followed directly
+        // by an item of the same link or of the same exchange's other link)
+        let focus = rng.chance(20);
+        for _ in 0..len {
+            let e = if focus { rng.below(n.min(2) as u64) } else { rng.below(n as u64) } as usize;
+            if rng.chance(notice_pct) {
+                out.line(format!("{} {e}", rng.pick(&["mktre", "accre"])));
+            } else {
+                let m = rng.chance(50);
+                match mono {
+                    Some((mk, ak)) if rng.chance(80) => out.line(if m {
+                        format!("mkt {e} {}", mkinds[mk])
+                    } else {
+                        format!("acc {e} {}", akinds[ak])
+                    }),
+                    _ => out.line(item(&mut rng, m, e)),
+                }
+            }
         }
     }
     out.flush();
